@@ -718,6 +718,7 @@ def simplify_constrained_range(source: str) -> str:
         ast.ListComp(generators=[comprehension_template]),
         ast.SetComp(generators=[comprehension_template]),
     )
+    transaction = 0
     for node in core.walk(root, template):
         comp = node.generators[0]
         if not comp.ifs:
@@ -857,8 +858,10 @@ def simplify_constrained_range(source: str) -> str:
         if step == 1:
             step = None
 
+        # The conditions go because the range takes over what they say: all of it, or nothing
+        transaction += 1
         for condition in redundant_conditions:
-            yield condition, ast.Constant(value=True, kind=None)
+            yield condition, ast.Constant(value=True, kind=None), transaction
 
         if start is not None and step is not None:
             yield comp.iter, ast.Call(
@@ -869,16 +872,16 @@ def simplify_constrained_range(source: str) -> str:
                     ast.Constant(value=step, kind=None),
                 ],
                 keywords=[],
-            )
+            ), transaction
 
         elif start is not None:
             yield comp.iter, ast.Call(
                 func=ast.Name(id="range"),
                 args=[ast.Constant(value=start, kind=None), ast.Constant(value=stop, kind=None)],
                 keywords=[],
-            )
+            ), transaction
 
         else:
             yield comp.iter, ast.Call(
                 func=ast.Name(id="range"), args=[ast.Constant(value=stop, kind=None)], keywords=[]
-            )
+            ), transaction
